@@ -14,6 +14,7 @@ CONSTANTS
   Batch = ${Batch}
   GarbageOn = ${GarbageOn}
   UpBatch = ${UpBatch}
+  MaxFault = ${MaxFault}
 SPECIFICATION SpecE
 VIEW View
 ${EMIT}
